@@ -87,6 +87,10 @@ func (s *System) robustTemplate(p *Peer, name string) model.Datagram {
 	if c, ok := p.lastReq["discovery"]; ok {
 		ref = &c
 	}
+	reqRef := ref // the request of the local client feature that is outstanding (if any)
+	if c, ok := p.lastReq["limit"]; ok {
+		reqRef = &c
+	}
 	limitSel := model.FilterType{CmdControl: &model.CmdControlType{Partial: &model.ElementTagType{}},
 		LoadControlLimitListDataSelectors: &model.LoadControlLimitListDataSelectorsType{LimitId: ptr(model.LoadControlLimitIdType(0))}}
 	limitDel := model.FilterType{CmdControl: &model.CmdControlType{Delete: &model.ElementTagType{}},
@@ -120,7 +124,7 @@ func (s *System) robustTemplate(p *Peer, name string) model.Datagram {
 	case "readSel":
 		return mk(model.CmdClassifierTypeRead, s.remoteAddr(p, "c11"), s.localAddr("S1"), false, nil, model.CmdType{Function: fnLimit, Filter: []model.FilterType{limitSel}, LoadControlLimitListData: &model.LoadControlLimitListDataType{}})
 	case "reply":
-		return mk(model.CmdClassifierTypeReply, s.remoteAddr(p, "s14"), s.localAddr("K1"), false, ref, model.CmdType{LoadControlLimitListData: limit})
+		return mk(model.CmdClassifierTypeReply, s.remoteAddr(p, "s14"), s.localAddr("K1"), false, reqRef, model.CmdType{LoadControlLimitListData: limit})
 	case "notifySel":
 		return mk(model.CmdClassifierTypeNotify, s.remoteAddr(p, "s14"), s.localAddr("K1"), true, nil, model.CmdType{Function: fnLimit, Filter: []model.FilterType{limitSel}, LoadControlLimitListData: limit})
 	case "write":
@@ -128,7 +132,7 @@ func (s *System) robustTemplate(p *Peer, name string) model.Datagram {
 	case "writeDelete":
 		return mk(model.CmdClassifierTypeWrite, s.remoteAddr(p, "c11"), s.localAddr("S1"), true, nil, model.CmdType{Function: fnLimit, Filter: []model.FilterType{limitDel, *model.NewFilterTypePartial()}, LoadControlLimitListData: limit})
 	case "result":
-		return mk(model.CmdClassifierTypeResult, s.remoteAddr(p, "s14"), s.localAddr("K1"), false, ref, model.CmdType{ResultData: &model.ResultDataType{ErrorNumber: ptr(model.ErrorNumberType(1)), Description: ptr(model.DescriptionType("x"))}})
+		return mk(model.CmdClassifierTypeResult, s.remoteAddr(p, "s14"), s.localAddr("K1"), false, reqRef, model.CmdType{ResultData: &model.ResultDataType{ErrorNumber: ptr(model.ErrorNumberType(1)), Description: ptr(model.DescriptionType("x"))}})
 	case "usecaseReply":
 		return mk(model.CmdClassifierTypeReply, nmR, nmL, false, ref, model.CmdType{NodeManagementUseCaseData: &model.NodeManagementUseCaseDataType{UseCaseInformation: []model.UseCaseInformationDataType{{
 			Address: &model.FeatureAddressType{Device: ptr(model.AddressDeviceType(p.devAddr)), Entity: entAddr("1")}, Actor: ptr(model.UseCaseActorTypeEVSE),
@@ -287,6 +291,7 @@ func (s *System) robustPhase(phase string) {
 	s.step(Action{"a": "sub", "p": "p2", "c": "c11", "s": "S1", "ft": "LoadControl", "ack": false})
 	s.step(Action{"a": "lsub", "k": "K1", "p": "p1", "r": "s14"})
 	s.step(Action{"a": "setdata", "s": "S1", "fn": "limit", "v": float64(1)})
+	s.robustOutstanding()
 	if phase == "reconnected" {
 		// the first peer had a write pending approval, lost its connection and is back (same SKI): connected, discovered,
 		// bound and subscribed again
@@ -300,6 +305,7 @@ func (s *System) robustPhase(phase string) {
 		s.step(Action{"a": "bind", "p": "p1", "c": "c11", "s": "S1", "ft": "LoadControl", "ack": false})
 		s.step(Action{"a": "sub", "p": "p1", "c": "c11", "s": "S1", "ft": "LoadControl", "ack": false})
 		s.step(Action{"a": "lsub", "k": "K1", "p": "p1", "r": "s14"})
+		s.robustOutstanding()
 	}
 	if phase == "pending" {
 		_ = s.lfeat["S1"].AddWriteApprovalCallback(func(msg *api.Message) {})
@@ -307,6 +313,24 @@ func (s *System) robustPhase(phase string) {
 		p := s.peers["p1"]
 		s.exec(Action{"a": "write", "p": "p1", "c": "c11", "s": "S1", "fn": "limit", "v": float64(2), "ack": true}, p, &TraceLine{})
 	}
+}
+
+// robustOutstanding: the local client feature has a request to the first peer outstanding, with a response callback
+// that - as applications chaining requests do - registers further callbacks on the same feature when it fires; the
+// reply and result templates reference that request
+func (s *System) robustOutstanding() {
+	s.step(Action{"a": "lreq", "k": "K1", "p": "p1"})
+	p := s.peers["p1"]
+	ctr, ok := p.lastReq["limit"]
+	if !ok {
+		return
+	}
+	K1 := s.lfeat["K1"]
+	_ = K1.AddResponseCallback(model.MsgCounterType(ctr), func(api.ResponseMessage) {
+		_ = K1.AddResponseCallback(model.MsgCounterType(ctr+100000), func(api.ResponseMessage) {})
+		K1.AddResultCallback(func(api.ResponseMessage) {})
+		_ = K1.DataCopy(fnMap["limit"])
+	})
 }
 
 func robustTemplatesCmd(args []string) {
